@@ -125,11 +125,14 @@ def _has_str(shape, seen=None):
 def conditions(tier, seed):
     to = 20.0 if tier == "quick" else 120.0
     depth = 1 if tier == "quick" else 2
-    sel = universe.select(tier, seed)
+    from vlib.props.c01 import _has_union
+
+    unionfree = lambda shapes: [x for x in shapes if not _has_union(x)]  # noqa: E731  (C13 is about union-free / Optional-only T)
+    sel = unionfree(universe.select(tier, seed))
     sel = sel + [EnumS(M.TagNum)]
     out = [make_pt(s, to, False) for s in sel]
-    out += [make_pt(s, to, True) for s in universe.select(tier, seed) if _has_str(s)]
-    for s in universe.select(tier, seed, extra=4):
+    out += [make_pt(s, to, True) for s in unionfree(universe.select(tier, seed)) if _has_str(s)]
+    for s in unionfree(universe.select(tier, seed, extra=4)):
         if _composite(s):
             out.append(make_idem(s, depth, to, "M"))
         if not _struct(s) or tier != "quick":
